@@ -354,8 +354,44 @@ func templateNarrowProg(plan *Tape) *Prog {
 		top.Outs = []Field{{"t_n0", cins[0].T}}
 		top.Ret = []Bind{{"t_n0", ref("PRODUCE", "w0"), false}}
 	}
+	// values known at compile time take another path (the expression filter):
+	// literal collections of the wide struct, some elements null (also the last
+	// one), passed in from the top-level call and narrowed at a stage input and at
+	// a pipeline output
+	wideLit := func(i int) interface{} {
+		m := NewOMap()
+		m.Set("a", int64(10+i))
+		m.Set("b", fmt.Sprintf("b%d", i))
+		m.Set("c", []interface{}{int64(i)})
+		return m
+	}
+	n := 2 + plan.Draw(3)
+	var arr []interface{}
+	lm := NewOMap()
+	for i := 0; i < n; i++ {
+		var v interface{} = wideLit(i)
+		if plan.Draw(3) == 0 || (i == n-1 && plan.Draw(2) == 0) {
+			v = nil
+		}
+		arr = append(arr, v)
+		var mv interface{} = wideLit(i + 20)
+		if plan.Draw(3) == 0 {
+			mv = nil
+		}
+		lm.Set(fmt.Sprintf("key%d", i), mv)
+	}
+	wa, wm := Ty{Base: "WIDE", Dims: "a"}, Ty{Base: "WIDE", Dims: "m"}
+	na, nm := Ty{Base: "NARROW", Dims: "a"}, Ty{Base: "NARROW", Dims: "m"}
+	p.Stages = append(p.Stages, &StageDef{Name: "CONSUMEL", SrcKind: "comp", Ins: []Field{{"n", na}, {"m", nm}}, Outs: []Field{{"done", intT}}})
+	top.Ins = append(top.Ins, Field{"wl", wa}, Field{"wm", wm})
+	top.Calls = append(top.Calls, &CallDef{Callee: "CONSUMEL", Id: "CONSUMEL", Binds: []Bind{{"n", self("wl"), false}, {"m", self("wm"), false}}})
+	top.Outs = append(top.Outs, Field{"t_wl", na}, Field{"t_wm", nm})
+	top.Ret = append(top.Ret, Bind{"t_wl", self("wl"), false}, Bind{"t_wm", self("wm"), false})
 	p.Pipelines = append(p.Pipelines, top)
-	p.Top = &CallDef{Callee: "TOPN", Id: "TOPN", Binds: []Bind{{"seed", &Expr{Kind: ELit, Val: int64(plan.Draw(1000)), T: intT}, false}}}
+	p.Top = &CallDef{Callee: "TOPN", Id: "TOPN", Binds: []Bind{
+		{"seed", &Expr{Kind: ELit, Val: int64(plan.Draw(1000)), T: intT}, false},
+		{"wl", &Expr{Kind: ELit, Val: arr, T: wa}, false},
+		{"wm", &Expr{Kind: ELit, Val: lm, T: wm}, false}}}
 	return p
 }
 
